@@ -422,7 +422,41 @@ class G:
         for _ in range(r.randint(*p['nobjs'])):
             e = self.num(r.randint(1, p['depth'])) if r.random() < 0.6 else None
             m.objs.append(dict(sense=r.randint(0, 1), expr=e, lin=self.lin(3) if (e is None or r.random() < 0.7) else {}))
+        if p.get('cone') and r.random() < p['cone']:
+            self.add_cone(m)
         return m
+
+    def add_cone(self, m):
+        """a constraint of second-order-cone shape (the converter may recognise it and pass a cone instead of the quadratic row):
+        sum c_i x_i^2 [+ k^2] <= c_0 x_0^2  or the rotated  sum c_i x_i^2 <= c x_0 x_1; the head variables are usually, not always, nonnegative"""
+        r = self.r
+        nv = len(m.vars)
+        conts = [j for j, v in enumerate(m.vars) if v['type'] == 'c']
+        if nv < 2 or not conts:
+            return
+        rotated = len(conts) >= 2 and nv >= 3 and r.random() < 0.4
+        heads = r.sample(conts, 2 if rotated else 1)
+        for h in heads:
+            if r.random() < 0.85:
+                m.vars[h]['lb'] = Fr(0); m.vars[h]['ub'] = Fr(r.randint(1, 16), 4)
+        others = [j for j in range(nv) if j not in heads]
+        tail = r.sample(others, r.randint(1, len(others)))
+        coef = lambda: r.choice([Fr(1), Fr(1), Fr(4), Fr(1, 4), Fr(2), Fr(9, 4), Fr(3)])
+        def sq(c, j, k=None):
+            t = ('*', ('v', j), ('v', j if k is None else k))
+            return t if (c == 1 and r.random() < 0.6) else ('*', ('n', c), t)
+        terms = [sq(coef(), j) for j in tail]
+        if r.random() < 0.2:
+            terms.append(('n', Fr(r.choice([1, 4, 9]), 4)))
+        hc = coef() if not rotated else r.choice([Fr(1), Fr(2), Fr(2), Fr(4), Fr(1, 2)])
+        sgn = r.choice([1, -1])          # 1: tail - head <= 0;  -1: head - tail >= 0
+        head = sq(-hc * sgn, heads[0], heads[1] if rotated else None)
+        if sgn < 0:
+            terms = [('neg', t) if t[0] != 'n' else ('n', -t[1]) for t in terms]
+        terms.append(head)
+        r.shuffle(terms)
+        e = ('sum', terms) if len(terms) > 2 else ('+', terms[0], terms[1])
+        m.cons.append(dict(expr=e, lin={}, lb=-math.inf if sgn > 0 else Fr(0), ub=Fr(0) if sgn > 0 else math.inf, cone=True))
 
     def lin(self, maxterms):
         nv = len(self.m.vars); k = self.r.randint(1, min(nv, maxterms))
